@@ -19,7 +19,7 @@ EXPLANATION = (
     "inputs plus the inputs of the substituted values: Subs.__init__ starts from a copy of arg.inputs, deletes every key, and only then "
     "adds the inputs of every value (so f(x=x+1) keeps x). Capture avoidance is decided under C05. NOT decided: the value of a substitution "
     "(renaming onto existing names, diagonals, slices, fusing of chained substitutions)."
-    ' Round 4: R04.4 guards over the pairs (any/all of key membership) are read as quantified statements per branch: handing all pairs to X.eager_subs needs every key in X.fresh, letting an operand pass unsubstituted needs no key among its inputs. R04.5 the Number and Tensor branches of an eager_subs compute the same function of index.data (modulo commutativity). R04.6 a stage of a staged eager_subs whose values may be open terms contains a clash test that depends on its pairs and on the remaining pairs / the term. R04.7 no loop over the pairs removes the current key from a mapping and adds other names to it. R04.8 a Slice-valued branch of an eager_subs reads start, stop and step of the slice. R04.9 where the name of a substituted value becomes a key of the inputs of the result, that name is tested against the inputs of the term itself (or a collapsed renaming raises).'
+    ' Round 4: R04.4 guards over the pairs (any/all of key membership) are read as quantified statements per branch: handing all pairs to X.eager_subs needs every key in X.fresh, letting an operand pass unsubstituted needs no key among its inputs. R04.5 the Number and Tensor branches of an eager_subs compute the same function of index.data (modulo commutativity). R04.6 a stage of a staged eager_subs whose values may be open terms contains a clash test that depends on its pairs and on the remaining pairs / the term. R04.7 no loop over the pairs removes the current key from a mapping and adds other names to it. R04.8 a Slice-valued branch of an eager_subs reads start, stop and step of the slice. R04.9 where the name of a substituted value becomes a key of the inputs of the result, that name is tested against the inputs of the term itself (or a collapsed renaming raises). R04.10 a single-key eager_subs does not rebuild its own class under the key being substituted.'
 )
 ASSUMPTIONS = ["binder hygiene (C05)", "substitution collections are recognised by role: a parameter or local named by the Subs constructor field / iterated as (name, value) pairs"]
 RULE_TEXT = "one obligation per loop over substitution pairs, per filter of foreign names, per step of the Subs typing rule"
@@ -144,6 +144,10 @@ def run(prog: Program, col: Collector, tier: str, refs: Optional[Refs] = None, c
     # ---------------------------------------------------------------- R04.9
     col.rule("R04.9", "an input is renamed to the name of a substituted value only after that name is tested against the term's own inputs", floor=2)
     _rename_clash(prog, col, refs, cat, colls)
+
+    # ---------------------------------------------------------------- R04.10
+    col.rule("R04.10", "the key that was substituted is not an input of the result: a rebuilt term is named by the value, not by the old key", floor=3)
+    _key_leaves_inputs(prog, col, refs, cat)
 
     # ---------------------------------------------------------------- R04.3
     col.rule("R04.3", "Subs declares f's unsubstituted inputs plus the inputs of the substituted values", floor=3)
@@ -637,3 +641,42 @@ def _rename_clash(prog: Program, col: Collector, refs: Refs, cat: Catalogue, col
                   "term already uses collapses two inputs into one (t(i='j') with j an input), and a later pair of the same call rewrites the renamed input (t(i='j', j=0))",
                   f.loc(renames[0]))
     col.cur.analysed["renaming_sites"] = n
+
+
+# ---------------------------------------------------------------------- R04.10
+def _key_leaves_inputs(prog: Program, col: Collector, refs: Refs, cat: Catalogue):
+    """An eager_subs that asserts its single key to be the term's own name field (`subs[0][0] == self.name`) substitutes that
+    name away.  A result rebuilt with the class's own constructor and `self.name` in the name position still has the key as an
+    input - the value's own variable (the name of the Variable / Slice) is the one that must appear."""
+    n = 0
+    for f in prog.funcs.values():
+        if f.name != "eager_subs" or f.cls is None or not f.positional:
+            continue
+        selfn = f.positional[0]
+        field = None
+        for st in f.body:
+            if isinstance(st, ast.Assert):
+                for c in ast.walk(st.test):
+                    if isinstance(c, ast.Compare) and len(c.ops) == 1 and isinstance(c.ops[0], ast.Eq):
+                        sides = [c.left, c.comparators[0]]
+                        own = [e for e in sides if isinstance(e, ast.Attribute) and isinstance(e.value, ast.Name) and e.value.id == selfn]
+                        key = [e for e in sides if isinstance(e, ast.Subscript) and isinstance(e.value, ast.Subscript)]
+                        if own and key:
+                            field = own[0].attr
+        if field is None:
+            continue
+        n += 1
+        bad = []
+        for r in [x for x in walk_no_nested(f.node) if isinstance(x, ast.Return) and x.value is not None]:
+            for c in ast.walk(r.value):
+                if isinstance(c, ast.Call) and isinstance(c.func, ast.Name) and (refs.resolve(c.func) or "") == f.cls.fq and c.args:
+                    a0 = c.args[0]
+                    if isinstance(a0, ast.Attribute) and a0.attr == field and isinstance(a0.value, ast.Name) and a0.value.id == selfn:
+                        bad.append((r, c))
+        construct = f"{f.fq}::result name"
+        if bad:
+            col.violation(construct, f"`{norm(bad[0][1])[:70]}` rebuilds the term under its old name `{selfn}.{field}` although that name is the key being substituted: "
+                          "the result still has the key as an input and does not mention the variable of the substituted value", f.loc(bad[0][0]))
+        else:
+            col.ok(construct, f"no result is rebuilt under the substituted key `{selfn}.{field}`", f.loc())
+    col.cur.analysed["single_key_eager_subs"] = n
